@@ -463,7 +463,32 @@ def pending_slots(ctx):
                 stuck = sorted({k for k, st in res.items() for v in st if v == 'set'})
                 R.check(not stuck, rule, f'{cq}.{name} | {slot}', 'cleared on every exit after it was set (normal return, explicit raise, cancellation at the await)',
                         f'`{slot}` still holds the future on exit {stuck}: after a disconnection cancelled the wait, the slot keeps the dead connection\'s future and every later request on any connection is refused as already pending', p.loc(m))
-    R.check(n >= 1, rule, 'manager-wide pending slots', f'{n} slot(s) analysed', 'no pending slot found')
+    # Device.accept(): the pending-accept registration is taken back on every exceptional exit, cancellation included
+    acc = p.find('bumble.device.Device.accept')
+    if acc is None:
+        R.bad(rule, 'bumble.device.Device.accept', 'anchor missing')
+    else:
+        class Reg(paths.Domain):
+            cancel_at_await = True
+
+            def event(self, node, v):
+                if isinstance(node, ast.Await) and 'pending_request' in norm(node) and v == 'registered':
+                    # the wait ended normally: whoever settled the future (on_connection_request / on_connection) took the entry out
+                    return ('consumed',)
+                if isinstance(node, ast.Assign) and isinstance(node.targets[0], ast.Subscript) and dotted(node.targets[0].value) == 'self.classic_pending_accepts':
+                    return ('registered',)
+                if isinstance(node, ast.Call) and isinstance(node.func, ast.Attribute) and 'self.classic_pending_accepts' in norm(node.func.value):
+                    if node.func.attr == 'append':
+                        return ('registered',)
+                    if node.func.attr in ('pop', 'remove'):
+                        return ('removed',)
+                return (v,)
+        res = paths.run(acc, Reg(), 'none')
+        left = sorted({k for k, st in res.items() if k.startswith('raise') for v in st if v == 'registered'})
+        n += 1
+        R.check(any(v == 'registered' or v == 'removed' for st in res.values() for v in st) and not left, rule, 'bumble.device.Device.accept | classic_pending_accepts', 'the registration is removed on every exceptional exit (timeout, error, cancellation by flush or by the caller)',
+                f'accept() leaves its entry in classic_pending_accepts on exit {left}: after a transport loss (or a cancelled caller) the next accept() for that address is refused as already pending', p.loc(acc))
+    R.check(n >= 2, rule, 'manager-wide pending slots', f'{n} slot(s) analysed', 'no pending slot found')
 
 
 def queue_waiters(ctx):
